@@ -130,5 +130,42 @@ WireOp(w, op) ==
     [] OTHER -> WFlag(w, "unknown_wire_op")
 
 \* at the return of a call the data received so far is visible in the framebuffer (the burst stays open)
+---------------------------------------------------------------------------
+\* framing of a drawing call (C08): nothing but groups  2A p4 . 2B p4 . 2C . pixels
+Be(p, i) == p[i] * 256 + p[i + 1]
+FramingErrors(c0, cmds, wpp, isDT) ==
+  LET n == Len(cmds)
+      cl == ColLimit(c0.madctl, c0.W, c0.H)
+      pl == PageLimit(c0.madctl, c0.W, c0.H)
+      BadAt(i) ==
+        LET e == cmds[i]  ph == (i - 1) % 3 IN
+        IF ph = 0 THEN
+           IF e.op # 42 THEN "expected set-column-address"
+           ELSE IF e.n # 4 THEN "set-column-address without exactly 4 parameter bytes"
+           ELSE IF Be(e.p, 1) > Be(e.p, 3) THEN "column start > end"
+           ELSE IF Be(e.p, 3) >= cl THEN "column end outside the framebuffer"
+           ELSE IF i + 2 > n THEN "incomplete group" ELSE ""
+        ELSE IF ph = 1 THEN
+           IF e.op # 43 THEN "expected set-page-address"
+           ELSE IF e.n # 4 THEN "set-page-address without exactly 4 parameter bytes"
+           ELSE IF Be(e.p, 1) > Be(e.p, 3) THEN "page start > end"
+           ELSE IF Be(e.p, 3) >= pl THEN "page end outside the framebuffer" ELSE ""
+        ELSE
+           IF e.op # 44 THEN "expected memory-write-start"
+           ELSE IF wpp = 0 THEN ""
+           ELSE IF e.n % wpp # 0 THEN "pixel data is not a whole number of pixels"
+           ELSE IF isDT THEN
+                LET a == cmds[i - 2].p  b == cmds[i - 1].p
+                    ww == Be(a, 3) - Be(a, 1) + 1   wh == Be(b, 3) - Be(b, 1) + 1
+                    np == e.n \div wpp
+                IN IF ww > 0 /\ wh > 0 /\ wh <= MaxInt \div ww /\ np > ww * wh
+                   THEN "pixel data larger than the window" ELSE ""
+           ELSE ""
+      bad == {i \in 1 .. n : BadAt(i) # ""}
+  IN IF bad = {} THEN "" ELSE BadAt(CHOOSE i \in bad : \A j \in bad : i <= j)
+
+Num2C(cmds) == Cardinality({i \in 1 .. Len(cmds) : cmds[i].op = 44})
+Num2A(cmds) == Cardinality({i \in 1 .. Len(cmds) : cmds[i].op = 42})
+
 RunOps(w, ops) == LET w1 == FoldLeft(WireOp, BeginCall(w), ops) IN [w1 EXCEPT !.ctl = ApplyBurst(@)]
 =============================================================================
